@@ -211,6 +211,15 @@ func genDep(r *rand.Rand, mem bool) cpuCase {
 	for i := 0; i < n; i++ {
 		if mem && r.Intn(4) == 0 {
 			g.memOp(r.Intn(3) == 0, -1)
+		} else if !mem && r.Intn(9) == 0 {
+			// a conditional branch whose operands were written by the instructions right before it (RAW into a
+			// branch): it skips one instruction or not, by data
+			l := g.label()
+			a, b := g.reg(), g.reg()
+			g.emit("addi %s, %s, %d", b, g.srcReg(), g.smallImm())
+			g.emit("%s %s, %s, %s", []string{"beq", "bne", "blt", "bge", "bltu", "bgeu"}[r.Intn(6)], a, b, l)
+			g.alu()
+			g.place(l)
 		} else {
 			g.alu()
 		}
